@@ -147,11 +147,7 @@ func (a *asm) xrefStream(num int, ents []xent, extra string, flate bool) int64 {
 	data := body.Bytes()
 	filter := ""
 	if flate {
-		var z bytes.Buffer
-		zw := zlib.NewWriter(&z)
-		zw.Write(data)
-		zw.Close()
-		data = z.Bytes()
+		data = deflate(data)
 		filter = "/Filter /FlateDecode "
 	}
 	a.stream(num, fmt.Sprintf("/Type /XRef /Size %d /W [1 4 2] /Index [%s] %s%s", size, strings.Join(index, " "), filter, extra), "", data)
@@ -186,4 +182,21 @@ func hexN(data []byte, times int) []byte {
 		data = append(out, '>')
 	}
 	return data
+}
+
+var zpool *zlib.Writer
+
+// deflate compresses with a reused compressor (a fresh one costs half a
+// millisecond, and a million files are made).  Not safe for concurrent use:
+// files are built by the worker's only goroutine or by the driver's main one.
+func deflate(data []byte) []byte {
+	var z bytes.Buffer
+	if zpool == nil {
+		zpool = zlib.NewWriter(&z)
+	} else {
+		zpool.Reset(&z)
+	}
+	zpool.Write(data)
+	zpool.Close()
+	return z.Bytes()
 }
